@@ -99,6 +99,18 @@ def parseEvent (s : S) : List String → Option Event
       some (.timeout st)
   | _ => none
 
+/-- one engine entry point: an `Event`, or the block-sync callback -/
+def applyOp (s : S) (toks : List String) : Option S :=
+  match toks with
+  | ["sync", h, r, b, sgs] =>
+    let sg? := (sgs.splitOn ",").mapM (·.toNat?)
+    match h.toNat?, r.toNat?, b.toNat?, sg? with
+    | some h, some r, some b, some sgl =>
+      if !s.started || !knownBlk s b || sgl.any (· ≥ s.n) || sgl.isEmpty then none
+      else some (syncBlock s h r b sgl)
+    | _, _, _, _ => none
+  | _ => (parseEvent s toks).map (vstep s)
+
 partial def step (d : DS) (toks : List String) : DS × String :=
   match toks with
   | ["reset"] => ({}, "ok")
@@ -115,15 +127,6 @@ partial def step (d : DS) (toks : List String) : DS × String :=
       let s : S := { n := n, me := me }
       ({ s := s, inited := true }, "ok")
     | _, _ => (d, "bad-op")
-  | ["sync", h, r, b, sgs] =>
-    let sg? := (sgs.splitOn ",").mapM (·.toNat?)
-    match h.toNat?, r.toNat?, b.toNat?, sg? with
-    | some h, some r, some b, some sgl =>
-      if !d.inited || !d.s.started || !knownBlk d.s b || sgl.any (· ≥ d.s.n) || sgl.isEmpty then (d, "bad-op") else
-      let from_ := d.s.eff.length
-      let s := settle (syncBlock d.s h r b sgl) 8
-      ({ d with s := s }, showState s from_)
-    | _, _, _, _ => (d, "bad-op")
   | ["crash", k] =>
     match k.toNat? with
     | some k =>
@@ -133,20 +136,20 @@ partial def step (d : DS) (toks : List String) : DS × String :=
       ({ d with s := s }, showState s from_)
     | none => (d, "bad-op")
   | "die" :: j :: k :: rest =>
-    match j.toNat?, k.toNat?, parseEvent d.s rest with
-    | some j, some k, some ev =>
+    match j.toNat?, k.toNat?, applyOp d.s rest with
+    | some j, some k, some s1 =>
       if !d.inited then (d, "bad-op") else
       let from_ := d.s.eff.length
-      let s := settle (vstep d.s ev) 8
+      let s := settle s1 8
       let s := crash s (from_ + j) k
       ({ d with s := s }, showState s from_)
     | _, _, _ => (d, "bad-op")
   | _ =>
-    match parseEvent d.s toks with
-    | some ev =>
+    match applyOp d.s toks with
+    | some s1 =>
       if !d.inited then (d, "bad-op") else
       let from_ := d.s.eff.length
-      let s := settle (vstep d.s ev) 8
+      let s := settle s1 8
       ({ d with s := s }, showState s from_)
     | none => (d, "bad-op")
 
